@@ -24,7 +24,8 @@ from pyvc.source import NotFound, body_of
 
 N_ = "contracts.formula_native"
 RP_TABLE = {"module": N_, "func": "replay_table", "kwargs": {}, "vars": {}}
-RP_FORM = {"module": N_, "func": "replay_formulas", "kwargs": {"budget": 60}, "vars": {}}
+NOT_DEMANDED = ["literal:signed-exponent", "postfix:literal-precision", "accepted-illformed:arrangement"]      # observations that the statement does not demand (DESIGN 14.3)
+RP_FORM = {"module": N_, "func": "replay_formulas", "kwargs": {"budget": 60, "skip_classes": NOT_DEMANDED}, "vars": {}}
 
 # ---- oracle: DESIGN Appendix A.6 / the property statement.  level 0 binds tightest; assoc +1 = right, -1 = left
 OPERATORS = {
@@ -118,7 +119,7 @@ def verify_functions(run):
         run.add(static(f"{fq}/arity[{name}]", r is not None and r[2] == arity and r[5] == "function_type", f"documented arity {arity}; source arity={r and r[2]} type={r and r[5]}", fn=fq, meta={"replay": RP_TABLE}))
         run.add(static(f"{fq}/elementwise_meaning[{name}]", r is not None and r[1] in meths,
                        f"documented meaning: one of {meths} (element-wise NumPy functions, A-NP); bound to `{r and r[1]}`" + ("" if r is None or r[1] in meths else " - not an element-wise array function"),
-                       fn=fq, meta={"replay": dict(RP_FORM, kwargs={"budget": 60, "only_class": f"function:{name}"})}))
+                       fn=fq, meta={"replay": dict(RP_FORM, kwargs={"budget": 60, "only_class": f"function:{name}", "skip_classes": NOT_DEMANDED})}))
 
 
 REL = {"gt": lambda a, b: xr.gt(a, b), "lt": lambda a, b: xr.lt(a, b),
@@ -136,7 +137,7 @@ def verify_relational(run):
         except NotFound as ex_:
             run.add(static(f"{fq}/exists", False, str(ex_))); continue
         run.under_contract("operation", f"Operation.{name}", fn)
-        rp = {"replay": dict(RP_FORM, kwargs={"budget": 60, "only_class": f"function:{name}"})}
+        rp = {"replay": dict(RP_FORM, kwargs={"budget": 60, "only_class": f"function:{name}", "skip_classes": NOT_DEMANDED})}
         try:
             ax = xr.Ax()
             (a, wa), (b, wb) = xr.sym("a"), xr.sym("b")
@@ -452,6 +453,7 @@ def verify_function_load(run):
 
 
 def build(run):
+    run.not_demanded = tuple(NOT_DEMANDED)
     run.assume("A-REAL", "A-NP", "A-PY", "A-LIFT", "A-STR", "A-MSG", "A-LOG", "A-POSTFIX")
     from props import C16
     plan = [("factory.FunctionFactory._create_operators", verify_table), ("factory.FunctionFactory._create_functions", verify_functions),
@@ -471,7 +473,6 @@ def build(run):
     # Classes outside what the property states are not demanded: literals in scientific notation with a signed exponent (`1e-3` is split
     # at the sign by format_infix; the statement's literals are decimal), the postfix print of a literal with more decimals than
     # settings.decimals (number formatting, A-FMT), and token arrangements that are not one of the listed ill-formed kinds (`x 2 +`).
-    NOT_DEMANDED = ["literal:signed-exponent", "postfix:literal-precision", "accepted-illformed:arrangement"]
     budget = 200 if run.tier == "quick" else 4000
     run.bounded("term.Function/formulas_vs_reference_evaluator.runtime", N_, "replay_formulas", [dict(seed=run.seed, budget=budget, skip_classes=NOT_DEMANDED)],
                 bound=f"all ordered operator pairs in every operand position, every function against every operator, every registered element on grids, 3x{budget} random well-typed trees to depth 5, "
